@@ -8,7 +8,8 @@ RULE = ("(a) exhaustive: every pair of documents over the line alphabet {a, b, e
         "with the seed, thorough runs all; (b) random pairs: policies vs variants with deleted/inserted/moved/duplicated blocks, "
         "CRLF, multi-byte text, empty documents, up to 60 lines. Compared: the operation list field by field (so tie-breaking "
         "between equally short scripts must match), the edit list, and the result of applying the edits with an independent "
-        "LSP-client implementation. non-trivial = before != after; distinct = distinct pair")
+        "LSP-client implementation. non-trivial = before != after; distinct = distinct pair"
+        ' Also large documents (400-2200 lines, hundreds to thousands of changed lines), implementation only.')
 TRUSTED = ["LSP client semantics as implemented by the harness' applyTextEdits (character 0 only; line == line count means end of document)"]
 ASSUMPTIONS = []
 
